@@ -160,6 +160,8 @@ def ref_layout_cases():
         {"numunpack_omit": False, "folders": [[1], [3], [4]], "chains": [C, C, C]}, {"emptyfile": "always"}, {"alldef_shortcut": False},
         {"chains": [[("DELTA", {}), ("LZMA2", {})]]}, {"chains": [[("X86", {}), ("LZMA", {})]]}, {"chains": [[("BROTLI", {})]]}, {"chains": [[("PPMD", {})]]},
         {"chains": [[("ZSTD", {})]]}, {"chains": [[("DEFLATE", {})]]}, {"chains": [[("ARM", {}), ("LZMA2", {})]]},
+        {"crc": "partial"}, {"folders": [[1], [3], [4]], "chains": [C, C, C], "pack_crc": "partial"},
+        {"folders": [[1], [3, 4]], "chains": [Z, C], "pack_crc": True, "crc": "folder"},
     ]
     out = []
     for d in devs:
